@@ -42,6 +42,10 @@ def synthetic_loads(spec):
         if v != 0.0:
             v *= 1.0 + 0.04 * (rnd.random() - 0.5)      # multiplicative noise: exact zeros stay zero
         out.append(round(v * scale, 3))
+    flm = int(spec.get("first_loaded_month", 1))
+    if flm > 1:
+        cum_ = [0, 744, 1416, 2160, 2880, 3624, 4344, 5088, 5832, 6552, 7296, 8016, 8760]
+        out = [0.0] * cum_[flm - 1] + out[cum_[flm - 1]:]       # no load at all in the first months of the year
     sh = int(spec.get("shift_hours", 0))
     if sh:
         out = out[-sh:] + out[:-sh]              # the same year of loads started `shift_hours` later (same length, same annual total)
@@ -63,55 +67,72 @@ def make_manager(c):
     return configure(GHEManager(), c)
 
 
-def configure(g, c):
-    """every public setter, in the command-line order, on a manager that may have been configured (and used) before"""
+def configure(g, c, only=None):
+    """the public setters, in the command-line order, on a manager that may have been configured (and used) before.
+    only = a section name: just the setter(s) of that section of the input are called (followed by set_design)."""
     from ghedesigner.enums import BHPipeType, DesignGeomType
-    g.set_fluid(**c["fluid"])
-    g.set_grout(**c["grout"])
-    g.set_soil(**c["soil"])
-    pp = dict(c["pipe"])
-    arr = pp.pop("arrangement")
-    g.set_pipe_type(arr)
-    if g.pipe_type == BHPipeType.SINGLEUTUBE:
-        g.set_single_u_tube_pipe(**pp)
-    elif g.pipe_type == BHPipeType.DOUBLEUTUBEPARALLEL:
-        g.set_double_u_tube_pipe_parallel(**pp)
-    elif g.pipe_type == BHPipeType.DOUBLEUTUBESERIES:
-        g.set_double_u_tube_pipe_series(**pp)
-    else:
-        g.set_coaxial_pipe(**pp)
     gc = dict(c["geometric_constraints"])
     dz = c["design"]
-    g.set_borehole(height=c.get("_nominal_height", gc["max_height"]), buried_depth=c["borehole"]["buried_depth"],
-                   diameter=c["borehole"]["diameter"])
-    g.set_ground_loads_from_hourly_list(c["loads"]["ground_loads"])
-    g.set_simulation_parameters(num_months=c["simulation"]["num_months"], max_eft=dz["max_eft"], min_eft=dz["min_eft"],
-                                max_height=gc["max_height"], min_height=gc["min_height"],
-                                max_boreholes=dz.get("max_boreholes"),
-                                continue_if_design_unmet=dz.get("continue_if_design_unmet", False))
-    g.set_design_geometry_type(gc["method"])
-    m = g.geom_type
-    if m == DesignGeomType.RECTANGLE:
-        g.set_geometry_constraints_rectangle(length=gc["length"], width=gc["width"], b_min=gc["b_min"], b_max=gc["b_max"])
-    elif m == DesignGeomType.NEARSQUARE:
-        g.set_geometry_constraints_near_square(b=gc["b"], length=gc["length"])
-    elif m == DesignGeomType.BIRECTANGLE:
-        g.set_geometry_constraints_bi_rectangle(length=gc["length"], width=gc["width"], b_min=gc["b_min"],
-                                                b_max_x=gc["b_max_x"], b_max_y=gc["b_max_y"])
-    elif m == DesignGeomType.BIZONEDRECTANGLE:
-        g.set_geometry_constraints_bi_zoned_rectangle(length=gc["length"], width=gc["width"], b_min=gc["b_min"],
-                                                      b_max_x=gc["b_max_x"], b_max_y=gc["b_max_y"])
-    elif m == DesignGeomType.BIRECTANGLECONSTRAINED:
-        g.set_geometry_constraints_bi_rectangle_constrained(b_min=gc["b_min"], b_max_x=gc["b_max_x"], b_max_y=gc["b_max_y"],
-                                                            property_boundary=gc["property_boundary"],
-                                                            no_go_boundaries=gc["no_go_boundaries"])
-    else:
-        g.set_geometry_constraints_rowwise(perimeter_spacing_ratio=gc.get("perimeter_spacing_ratio"),
-                                           max_spacing=gc["max_spacing"], min_spacing=gc["min_spacing"],
-                                           spacing_step=gc["spacing_step"], max_rotation=gc["max_rotation"],
-                                           min_rotation=gc["min_rotation"], rotate_step=gc["rotate_step"],
-                                           property_boundary=gc["property_boundary"],
-                                           no_go_boundaries=gc["no_go_boundaries"])
+
+    def do(sec):
+        return only is None or only == sec
+    if do("fluid"):
+        g.set_fluid(**c["fluid"])
+    if do("grout"):
+        g.set_grout(**c["grout"])
+    if do("soil"):
+        g.set_soil(**c["soil"])
+    if do("pipe"):
+        pp = dict(c["pipe"])
+        arr = pp.pop("arrangement")
+        g.set_pipe_type(arr)
+        if g.pipe_type == BHPipeType.SINGLEUTUBE:
+            g.set_single_u_tube_pipe(**pp)
+        elif g.pipe_type == BHPipeType.DOUBLEUTUBEPARALLEL:
+            g.set_double_u_tube_pipe_parallel(**pp)
+        elif g.pipe_type == BHPipeType.DOUBLEUTUBESERIES:
+            g.set_double_u_tube_pipe_series(**pp)
+        else:
+            g.set_coaxial_pipe(**pp)
+    if do("borehole"):
+        g.set_borehole(height=c.get("_nominal_height", gc["max_height"]), buried_depth=c["borehole"]["buried_depth"],
+                       diameter=c["borehole"]["diameter"])
+    if do("loads"):
+        g.set_ground_loads_from_hourly_list(c["loads"]["ground_loads"])
+    if do("simulation") or do("design"):
+        g.set_simulation_parameters(num_months=c["simulation"]["num_months"], max_eft=dz["max_eft"], min_eft=dz["min_eft"],
+                                    max_height=gc["max_height"], min_height=gc["min_height"],
+                                    max_boreholes=dz.get("max_boreholes"),
+                                    continue_if_design_unmet=dz.get("continue_if_design_unmet", False))
+    if do("geometric_constraints"):
+        if only is not None:          # heights live in the same section of the input
+            g.set_simulation_parameters(num_months=c["simulation"]["num_months"], max_eft=dz["max_eft"], min_eft=dz["min_eft"],
+                                        max_height=gc["max_height"], min_height=gc["min_height"],
+                                        max_boreholes=dz.get("max_boreholes"),
+                                        continue_if_design_unmet=dz.get("continue_if_design_unmet", False))
+        g.set_design_geometry_type(gc["method"])
+        m = g.geom_type
+        if m == DesignGeomType.RECTANGLE:
+            g.set_geometry_constraints_rectangle(length=gc["length"], width=gc["width"], b_min=gc["b_min"], b_max=gc["b_max"])
+        elif m == DesignGeomType.NEARSQUARE:
+            g.set_geometry_constraints_near_square(b=gc["b"], length=gc["length"])
+        elif m == DesignGeomType.BIRECTANGLE:
+            g.set_geometry_constraints_bi_rectangle(length=gc["length"], width=gc["width"], b_min=gc["b_min"],
+                                                    b_max_x=gc["b_max_x"], b_max_y=gc["b_max_y"])
+        elif m == DesignGeomType.BIZONEDRECTANGLE:
+            g.set_geometry_constraints_bi_zoned_rectangle(length=gc["length"], width=gc["width"], b_min=gc["b_min"],
+                                                          b_max_x=gc["b_max_x"], b_max_y=gc["b_max_y"])
+        elif m == DesignGeomType.BIRECTANGLECONSTRAINED:
+            g.set_geometry_constraints_bi_rectangle_constrained(b_min=gc["b_min"], b_max_x=gc["b_max_x"], b_max_y=gc["b_max_y"],
+                                                                property_boundary=gc["property_boundary"],
+                                                                no_go_boundaries=gc["no_go_boundaries"])
+        else:
+            g.set_geometry_constraints_rowwise(perimeter_spacing_ratio=gc.get("perimeter_spacing_ratio"),
+                                               max_spacing=gc["max_spacing"], min_spacing=gc["min_spacing"],
+                                               spacing_step=gc["spacing_step"], max_rotation=gc["max_rotation"],
+                                               min_rotation=gc["min_rotation"], rotate_step=gc["rotate_step"],
+                                               property_boundary=gc["property_boundary"],
+                                               no_go_boundaries=gc["no_go_boundaries"])
     g.set_design(flow_rate=dz["flow_rate"], flow_type_str=dz["flow_type"])
     return g
 
@@ -155,8 +176,15 @@ def reference_simulation(c, coords, height):
     ghe.compute_g_functions()
     ghe.bhe.b.H = height
     mx, mn = ghe.simulate(method=TimestepType.HYBRID)
+    gf, gb = ghe.grab_g_function(ghe.B_spacing / float(height))
+    hl = ghe.hybrid_load
     return {"max": float(mx), "min": float(mn), "excess": float(max(mx - dz["max_eft"], dz["min_eft"] - mn)), "m_flow_borehole": float(m_bh),
-            "hybrid_axis_end_h": float(ghe.hybrid_load.hour[-1])}
+            "hybrid_axis_end_h": float(hl.hour[-1]),
+            "gfunc": {"x": [float(v) for v in gf.x], "y": [float(v) for v in gf.y]},
+            "durations": {"cl": [float(v) for v in hl.monthly_peak_cl_duration[:13]], "hl": [float(v) for v in hl.monthly_peak_hl_duration[:13]]},
+            "monthly": {"cl": [float(v) for v in hl.monthly_cl[:13]], "hl": [float(v) for v in hl.monthly_hl[:13]],
+                        "pcl": [float(v) for v in hl.monthly_peak_cl[:13]], "phl": [float(v) for v in hl.monthly_peak_hl[:13]]},
+            "hp_eft_head": [float(v) for v in ghe.hp_eft[:40]]}
 
 
 def summarise(g, with_series=False):
@@ -173,6 +201,9 @@ def summarise(g, with_series=False):
         "fluid_rho": float(ghe.bhe.fluid.rho),
         "selected_coords": ([[float(x), float(y)] for x, y in s.selected_coordinates] if getattr(s, "selected_coordinates", None) is not None else None),
         "simulated_months": int(ghe.sim_params.end_month - ghe.sim_params.start_month + 1),
+        "durations": {"cl": [float(v) for v in ghe.hybrid_load.monthly_peak_cl_duration[:13]], "hl": [float(v) for v in ghe.hybrid_load.monthly_peak_hl_duration[:13]]},
+        "monthly": {"cl": [float(v) for v in ghe.hybrid_load.monthly_cl[:13]], "hl": [float(v) for v in ghe.hybrid_load.monthly_hl[:13]],
+                    "pcl": [float(v) for v in ghe.hybrid_load.monthly_peak_cl[:13]], "phl": [float(v) for v in ghe.hybrid_load.monthly_peak_hl[:13]]},
         "hybrid_axis_end_h": float(ghe.hybrid_load.hour[-1]),
         "rb": ghe.bhe.calc_effective_borehole_resistance(),
     }
@@ -219,6 +250,22 @@ def run(cfg, outdir=None, with_series=False):
             except ValueError:
                 pass
             configure(g, c)
+        elif c.get("_changed_after_design"):
+            # the manager was completely set up (design object created, optionally a design found) with OTHER values in one section of the
+            # input; then only that section is set again, to the requested values, and set_design is called again
+            sec = c["_changed_after_design"]["section"]
+            first = json.loads(json.dumps(c))
+            if sec == "loads":
+                first["loads"] = {"ground_loads": synthetic_loads(c["_changed_after_design"]["values"]["synthetic"])}
+            else:
+                first[sec].update(c["_changed_after_design"]["values"])
+            g = make_manager(first)
+            if c["_changed_after_design"].get("design_found_first"):
+                try:
+                    g.find_design()
+                except ValueError:
+                    pass
+            configure(g, c, only=sec)
         elif c.get("_design_first_set_with"):
             # set_design was called before with another flow specification; only set_design is called again (no other setter)
             first = json.loads(json.dumps(c))
@@ -246,6 +293,7 @@ def run(cfg, outdir=None, with_series=False):
         mx, mn = ghe.simulate(method=TimestepType.HYBRID)
         res["resim_max"], res["resim_min"] = mx, mn
         res["resim_excess"] = ghe.cost(mx, mn)
+        res["hp_eft_head"] = [float(v) for v in ghe.hp_eft[:40]]
         try:
             res["reference"] = reference_simulation(c, [tuple(p) for p in res["coords"]], float(res["H"]))
         except Exception as ex_:
